@@ -105,6 +105,9 @@ def run(ctx):
 def replay(path):
     import json
     r = json.load(open(path))["replay"]
+    if isinstance(r, dict) and str(r.get("kind", "")).startswith("harvest-"):
+        from harness import harvest_run
+        return harvest_run.replay(r)
     cfg = B.Cfg(**{k: v for k, v in r["cfg"].items()})
     f = P.check_chen(cfg, [tuple(q) for q in r["queries"]], P.SHAPES.get(r.get("shape", "matrix"), (2, 3)),
                      r.get("levy", "none"), random.Random(0), wrapper=r.get("wrapper", "interval"))
